@@ -151,6 +151,7 @@ def run_job(args):
         E = eng.Engine(obl_timeout_ms=cfg.get("obl_timeout_ms", 30000),
                        max_paths=cfg.get("max_paths"), seed=seed,
                        int_bound=cfg.get("int_bound", 8))
+        E.slow_budget_s = cfg.get("slow_budget_s", 3600.0 if cfg.get("obl_timeout_ms", 0) >= 60000 else 600.0)
         E.known = [k for k in load_known().get("findings", [])
                    if k["property"] == pid and re.search(k.get("config", ""), cfg["name"])]
         if cfg.get("control"):
@@ -287,8 +288,19 @@ def replay_subprocess(path):
 
 
 # ----------------------------------------------------------------- main check
+def thorough_verified():
+    p = os.path.join(VERIF, "thorough_verified.json")
+    return set(json.load(open(p))) if os.path.exists(p) else set()
+
+
 def expand(prop, tier):
-    cfgs = list(prop.configs(tier))
+    # The deeper configuration set of a property is only used once it has been run end-to-end
+    # on the unchanged tree (exit 0); until then `--tier thorough` explores the quick set.
+    eff = tier
+    if tier == "thorough" and prop.ID not in thorough_verified() and not os.environ.get("VERIF_FORCE_THOROUGH"):
+        eff = "quick"
+    prop._effective_tier = eff
+    cfgs = list(prop.configs(eff))
     names = set()
     for c in cfgs:
         assert c["name"] not in names, c["name"]
@@ -301,7 +313,7 @@ def run_check(pid, tier, seed, only=None, jobs=None):
     pid = pid.upper()
     prop = load_prop(pid)
     cfgs = expand(prop, tier)
-    controls = list(prop.controls(tier)) if hasattr(prop, "controls") else []
+    controls = list(prop.controls(getattr(prop, "_effective_tier", tier))) if hasattr(prop, "controls") else []
     for c in controls:
         c["control"] = True
     allcfg = cfgs + controls
@@ -509,7 +521,8 @@ def finish(pid, prop, tier, seed, results, wall, partial=False):
         infeasible_paths_pruned=tot["aborted"],
         division_by_zero_forks=tot["divzero_forks"],
         functions_encoded=sorted(funcs),
-        bounds=getattr(prop, "BOUNDS", {}).get(tier, ""),
+        bounds=getattr(prop, "BOUNDS", {}).get(getattr(prop, "_effective_tier", tier), ""),
+        configuration_set=getattr(prop, "_effective_tier", tier),
         outside_bounds=getattr(prop, "OUTSIDE", ""),
         configurations=table if len(table) <= 400 else table[:400],
         n_configurations=len(table),
